@@ -29,17 +29,63 @@ def pure_targets(prog):
     return rf.nodes(prog, ok)
 
 
+def add_shapes(p):
+    """Functions in which the place of the extracted definition matters: the selected expression uses a
+    variable bound in the same else block / match arm / closure body, and would fail outside it."""
+    import gen_prog
+    g = gen_prog.Gen(0)
+    g.nid = 200000
+    n = g.node
+    V = lambda x: n("var", n=x)
+    I = lambda v: n("int", v=v)
+    P = lambda op, l, r: n("paren", e=n("bin", op=op, l=l, r=r))
+    t1 = P("/", V("zs"), V("k"))
+    zqe = {"n": "zqe", "ps": ["k"], "pt": ["Int"], "rt": "Int", "line": 0, "b": [
+        n("if", c=P("==", V("k"), I(0)), t=[I(0)], f=[n("let", n="zs", e=P("*", V("k"), I(10))), t1], inline=False, **{"else": True})]}
+    t2 = P("*", V("zs"), I(2))
+    zqm = {"n": "zqm", "ps": ["k"], "pt": ["Int"], "rt": "Int", "line": 0, "b": [
+        n("match", s=n("mcall", m="get", recv=n("list", xs=[I(5)]), args=[V("k")]), arms=[
+            {"v": "Some", "bind": "zm", "wild": False, "b": [n("let", n="zs", e=P("+", V("zm"), I(1))), t2]},
+            {"v": "None", "bind": "", "wild": False, "b": [I(0)]}])]}
+    t3 = P("-", V("za"), V("zs"))
+    zqc = {"n": "zqc", "ps": ["k"], "pt": ["Int"], "rt": "Int", "line": 0, "b": [
+        n("let", n="zc", e=n("lam", ps=["za"], rt="Int", b=[n("let", n="zs", e=P("+", V("za"), V("k"))), t3])),
+        n("call", f=V("zc"), args=[I(4)])]}
+    for t in (t1, t2, t3):
+        t["probe"] = True
+    p["funs"] += [zqe, zqm, zqc]
+    for f, args in (("zqe", 7), ("zqe", 0), ("zqm", 0), ("zqm", 3), ("zqc", 2)):
+        p["main"].append(n("show", e=n("call", f=V(f), args=[I(args)])))
+
+
 def run(tier, seed):
     ck = Check("C20", "model_checking", tier, seed)
     rnd = random.Random(seed * 71 + 20)
-    tres, origs = rf.originals(seed + 201, 400 if tier == "quick" else 3000, size=5, err_rate=0.0)
+    import gen_prog
+    import refrun
+    progs, srcs = refrun.gen_programs(seed + 201, 400 if tier == "quick" else 3000, 5, err_rate=0.0)
+    progs = [p for p in progs if not rf.has_kind(p, {"set", "upd"})]
+    for p in progs:
+        if p["id"] % 3 == 0:
+            add_shapes(p)
+            srcs[p["id"]] = gen_prog.render(p)
+    tres, exp = refrun.ref_expect(progs)
     ck.add_tlc(tres)
-    origs = [(p, s, e) for p, s, e in origs if not rf.has_kind(p, {"set", "upd"})]
+    origs = [(p, srcs[p["id"]], exp[p["id"]]) for p in progs if exp[p["id"]]["outcome"] == "ok"]
     jobs, meta = [], []
     for p, s, e in origs:
         cand = [n for n in pure_targets(p) if "start" in n]
         rnd.shuffle(cand)
-        for n in cand[:3 if tier == "quick" else 6]:
+        # expressions inside `else` blocks and match arms that use a variable first: where the extracted
+        # definition is inserted matters most there (it must stay inside the block that binds the variable)
+        inner = set()
+        for blk_owner in rf.nodes(p, lambda n: n["k"] in ("if", "match")):
+            blocks = [blk_owner.get("f", [])] if blk_owner["k"] == "if" else [a["b"] for a in blk_owner["arms"]]
+            for b in blocks:
+                for t in rf.nodes({"funs": [], "main": b}, lambda n: True):
+                    inner.add(id(t))
+        cand.sort(key=lambda n: 0 if n.get("probe") else 1 if (id(n) in inner and rf.has_kind(n, {"var"})) else 2)
+        for n in cand[:5 if tier == "quick" else 9]:
             for what in ("variable", "function"):
                 jobs.append(([f"reftest-extract-{what}", "--name", "extracted", "FILE", str(n["start"]), str(n["end"])], s))
                 meta.append((p, s, e, n, what))
